@@ -389,6 +389,10 @@ func stepsFor(mode string, names int) [][]step {
 				out = append(out, []step{s, t})
 			}
 		}
+	case "2x1r":
+		for _, s := range reps {
+			out = append(out, []step{s})
+		}
 	case "2x2r":
 		for _, s := range reps {
 			for _, t := range reps {
@@ -692,7 +696,7 @@ func main() {
 	}
 	// waves: each wave is a complete sub-space; a wave is only started while the budget lasts
 	waves := map[string][]pool.Shard{}
-	order := []string{"1x1", "lib", "site", "2x1", "1x2", "2x2r"}
+	order := []string{"1x1", "lib", "site", "2x1", "2x1r", "1x2", "2x2r"}
 	for _, k := range siteKinds() {
 		for _, st := range siteStores() {
 			waves["site"] = append(waves["site"], pool.Shard{Kind: "site", Arg: siteShard{Kind: k.name, Store: st.name, Rot: rot, Quick: c.Quick()}})
@@ -720,7 +724,11 @@ func main() {
 				if !r2.general || (r1.name == "param" && r2.name == "param") || (c.Quick() && r2.late) {
 					continue
 				}
-				add(s.name, []string{r1.name, r2.name}, "2x1")
+				if c.Quick() && (r1.ext || r2.ext) {
+					add(s.name, []string{r1.name, r2.name}, "2x1r")
+				} else {
+					add(s.name, []string{r1.name, r2.name}, "2x1")
+				}
 				if !c.Quick() {
 					add(s.name, []string{r1.name, r2.name}, "2x2r")
 				}
@@ -745,7 +753,7 @@ func main() {
 			continue
 		}
 		if c.Expired() {
-			c.NotExhaustive("budget expired; completed waves: " + strings.Join(done, ", ") + " (1x1 = one route x one mutation, 2x1 = route chains, 1x2 / 2x2r = mutation sequences)")
+			c.NotExhaustive("budget expired; completed waves: " + strings.Join(done, ", ") + " (1x1 = one route x one mutation, site = repeated evaluation of one array-producing site, 2x1 / 2x1r = route chains, 1x2 / 2x2r = mutation sequences)")
 			break
 		}
 		runWave(c, shards, &total, &na, &runs, &copyDiff, uneval, matrix, mutStat, ctrl, diverge, leakBy)
